@@ -187,6 +187,12 @@ class Unmodellable(Exception):
     pass
 
 
+class ForeignValue(Exception):
+    """a message object of a class that does not belong to the schema sits inside a value of the schema (e.g. a map value decoded
+    as the same-named class of another module). NOT an Unmodellable: the checks skip unmodellable INPUTS, they must never skip
+    a result that is not a value of its schema."""
+
+
 def us_of_datetime(dt):
     if dt.tzinfo is None:
         raise Unmodellable("naive datetime")
@@ -237,7 +243,7 @@ def obj_literal(schema, m):
     """the raw state of a real Message object as an `Obj cls raw sow unk cur` literal"""
     cls = type(m)
     if cls not in schema.index_of:
-        raise Unmodellable(f"class {cls} not in schema")
+        raise ForeignValue(f"class {cls.__module__}.{cls.__qualname__} is not a class of this schema")
     idx = schema.index_of[cls]
     c = schema.classes[idx - NBUILTIN]
     raw = [object.__getattribute__(m, f.name) for f in c.fields]
@@ -292,6 +298,31 @@ def matrix_schema():
     nums = Cls("KNumbers", [Field(f"n{n}", n, "plain", scalar("int32")) for n in NUMBERS]
                + [Field("big_s", 536870910, "plain", scalar("string"))])
     return Schema([inner, empty, plain, opt, rep, one, mp, wr, nums], enums)
+
+
+def twin_schemas():
+    """two schemas - two packages of one program - that each define their own message `Item` and enum-valued / message-valued maps
+    over it, with the SAME class names, key kinds and field names but different fields: whatever the library remembers about a class
+    (entry classes of maps, key tables, enum names, defaults) must be remembered per class OBJECT, not per class name
+    (seeded changes C01-4, C02-4: a map-entry class cache keyed by the value class's name)"""
+    out = []
+    for variant in (0, 1):
+        if variant == 0:
+            item = Cls("Item", [Field("x", 1, "plain", scalar("int32")), Field("s", 2, "plain", scalar("string"))])
+            enums = [[("ZERO", 0), ("ONE", 1)]]
+        else:
+            item = Cls("Item", [Field("s", 1, "plain", scalar("string")), Field("y", 2, "plain", scalar("sint64")),
+                                Field("r", 3, "repeated", scalar("int32"))])
+            enums = [[("ZERO", 0), ("OTHER", 5), ("NEG", -1)]]
+        holder = Cls("Holder", [
+            Field("items", 1, "map", Elem("msg", "message", 0), key=scalar("string")),
+            Field("by_num", 2, "map", Elem("msg", "message", 0), key=scalar("int32")),
+            Field("e_map", 3, "map", Elem("enum", "enum", 0), key=scalar("string")),
+            Field("one", 4, "plain", Elem("msg", "message", 0)),
+            Field("many", 5, "repeated", Elem("msg", "message", 0)),
+            Field("e", 6, "plain", Elem("enum", "enum", 0))])
+        out.append(Schema([item, holder], enums))
+    return out
 
 
 def random_schema(rng, nclasses=None):
